@@ -49,6 +49,7 @@ const (
 	cCtxCancel   = 3
 	cServerClose = 4
 	cRemove      = 5
+	cRemoveSoft  = 6
 	cSrvClose    = 9
 	cLsnClose    = 10
 	cReplaceOK   = 20
@@ -1376,6 +1377,111 @@ func runPending(k int, sc Scn, r *vh.Rand) (res Res) {
 	return res
 }
 
+// runDropped: the Server drops a Session (Remove(id, false): server side only; or Remove(id,
+// true): with the close handshake) while the client lives on, then the client continues:
+// variant "poll" (its next ordinary exchange), "setchannel" (SetChannel(true): the next Packet
+// carries the Channel flag) or "close" (Session.Close).  sc.Chm: the client is in channel mode
+// before the removal.  Oracle: nothing panics (the connection handlers are library goroutines:
+// a panic kills the child), and both ends end consistently: the client closed, or it was told
+// to register again and the Server lists it again; clean-up returns, goroutine baseline.
+func runDropped(k int, sc Scn, r *vh.Rand) (res Res) {
+	res.K, res.Returned, res.Extra = k, true, map[string]int{}
+	fail := func(what, key string) { res.Fails = append(res.Fails, failRec{what, key}) }
+	base := runtime.NumGoroutine()
+	sleep := time.Duration(sc.SleepMs) * time.Millisecond
+	srv := c2.NewServer(logx.NOP)
+	srv.Keys.Fill()
+	l, err := srv.Listen("c16d", "127.0.0.1:0", cfg.Static{L: com.TCP})
+	if err != nil {
+		panic("listen: " + err.Error())
+	}
+	old := local.UUID
+	local.UUID = newID(r)
+	c, err := c2.Connect(logx.NOP, cfg.Static{C: com.TCP, H: l.Address(), S: sleep})
+	id := local.UUID
+	local.UUID = old
+	if err != nil {
+		panic("connect: " + err.Error())
+	}
+	var ss *c2.Session
+	for i := 0; i < 300 && ss == nil; i++ {
+		if ss = srv.Session(id); ss == nil {
+			time.Sleep(time.Millisecond)
+		}
+	}
+	if ss == nil {
+		panic("server never listed the session")
+	}
+	if sc.Chm {
+		c.SetChannel(true)
+		for i := 0; i < 500 && c2.VerifC16State(c)&(1<<8) == 0; i++ {
+			time.Sleep(time.Millisecond)
+		}
+	}
+	hard := len(sc.Phases) > 0 && len(sc.Phases[0]) > 0 && sc.Phases[0][0] == cRemove
+	srv.Remove(id, hard)
+	if !hard {
+		for i := 0; i < 500 && c2.VerifC16Listed(srv, ss); i++ {
+			time.Sleep(time.Millisecond)
+		}
+		if c2.VerifC16Listed(srv, ss) {
+			fail("Remove(id, false) did not unlist the Session within 500 ms", "dropped-still-listed")
+		}
+	}
+	done := make(chan struct{})
+	go func() {
+		defer close(done)
+		switch sc.Variant {
+		case "setchannel":
+			c.SetChannel(true)
+		case "close":
+			c.Close()
+		}
+	}()
+	if !waitCh(done, 3*time.Second) {
+		res.Returned = false
+		fail(fmt.Sprintf("the client's %s after the Server dropped its Session did not return within 3 s", sc.Variant), "dropped-call-hang")
+	}
+	// the client is told to register again (a new server-side Session appears) or it closes
+	ok := false
+	for i := 0; i < 400 && !ok; i++ {
+		select {
+		case <-c.Done():
+			ok = true
+		default:
+			if n := srv.Session(id); n != nil && n != ss && !hard && sc.Variant != "close" {
+				ok = true
+			}
+		}
+		if !ok {
+			time.Sleep(5 * time.Millisecond)
+		}
+	}
+	if !ok && res.Returned && (sc.Chm || sc.Variant == "setchannel") {
+		// Remove(id, false) only drops the entry "until the client connects again": a client in
+		// (or entering) channel mode keeps its connection and is not seen to register again in
+		// this window; observed, not condemned
+		res.Obs = append(res.Obs, fmt.Sprintf("dropped Session (handshake=%t), client %s, channel mode before=%t: the client was neither closed nor registered again within 2 s", hard, sc.Variant, sc.Chm))
+	} else if !ok && res.Returned {
+		fail(fmt.Sprintf("2 s after the Server dropped the Session (handshake=%t) and the client's %s (channel mode before: %t) the client is neither closed nor registered again", hard, sc.Variant, sc.Chm), "dropped-inconsistent")
+	}
+	if sc.Variant == "close" && res.Returned {
+		if !waitCh(c.Done(), time.Second) {
+			fail("client Session.Wait/Done not released after Close (Session dropped by the Server before)", "dropped-client-wait")
+		}
+	}
+	cl := make(chan struct{})
+	go func() { c.Close(); l.Close(); srv.Close(); close(cl) }()
+	if !waitCh(cl, 4*time.Second) {
+		fail("clean-up after the dropped-Session scenario did not return within 4 s", "dropped-cleanup-hang")
+		res.Returned = false
+	}
+	if n := settleGoroutines(base, 2*time.Second); n > base && res.Returned {
+		fail(fmt.Sprintf("goroutines did not return to the baseline after the dropped-Session scenario: %d > %d", n, base), "goroutine-baseline-dropped")
+	}
+	return res
+}
+
 // ---------------------------------------------------------------- scenario generation
 
 var instants = []string{"registered", "idle", "queued-client", "queued-server", "queued-both", "fragments", "mid-exchange"}
@@ -1465,6 +1571,12 @@ func gen(r *vh.Rand, tier string) []Scn {
 	add(Scn{Kind: "multi", Instant: "listeners", Pairs: 5, Cbk: true, Phases: [][]int{{cCtxCancel}, {cSrvClose}}})
 	for _, n := range []int{0, 1, 2, 3, 4, 2, 3, 4} {
 		add(Scn{Kind: "pending", Instant: "listeners-pending", Pairs: n, Phases: [][]int{{cSrvClose}}})
+	}
+	for _, chm := range []bool{false, true} {
+		for _, v := range []string{"poll", "setchannel", "close"} {
+			add(Scn{Kind: "dropped", Instant: "dropped", Variant: v, Chm: chm, Cbk: true, Phases: [][]int{{cRemoveSoft}}})
+			add(Scn{Kind: "dropped", Instant: "dropped", Variant: v, Chm: chm, Cbk: true, Phases: [][]int{{cRemove}}})
+		}
 	}
 	add(Scn{Kind: "replace-storm", Instant: "listener", Pairs: 40})
 	add(Scn{Kind: "fresh", Variant: "never-listened", Phases: [][]int{{cSrvClose}}})
@@ -1615,6 +1727,8 @@ func childMain(file string, from int, seed uint64) {
 			res = runFresh(k, scs[k], r)
 		} else if scs[k].Kind == "replace" {
 			res = runReplace(k, scs[k], r)
+		} else if scs[k].Kind == "dropped" {
+			res = runDropped(k, scs[k], r)
 		} else if scs[k].Kind == "pending" {
 			res = runPending(k, scs[k], r)
 		} else if scs[k].Kind == "multi" {
